@@ -277,7 +277,8 @@ theorem matcher_iff (aM : MatcherArgs) (t : Option TokObj) (toks : TokFn) (sim :
   have hcell : ∀ cr : Row, (cr.cell (C.colIdx aM.candLKey), cr.cell (C.colIdx aM.candRKey)) = rowKeys cr := by
     intro cr; rw [hcl, hcr]; rfl
   obtain ⟨hl, hr⟩ := cand_keys_mem aM C l r hcl hcr hsrc
-  obtain ⟨P', hP', hrows, -⟩ := C05.keeps_exactly aM t toks sim cpu C l r hv hl hr hlen hstr
+  obtain ⟨P', hP', hrows, -⟩ := C05.keeps_exactly aM t toks sim cpu C l r hv
+    (fun cr hcr => PyMem.of_mem (hl cr hcr)) (fun cr hcr => PyMem.of_mem (hr cr hcr)) hlen hstr
   rw [hP] at hP'
   cases Except.ok.inj hP'
   -- what a row of `P` naming the pair looks like
@@ -290,7 +291,7 @@ theorem matcher_iff (aM : MatcherArgs) (t : Option TokObj) (toks : TokFn) (sim :
     obtain ⟨ls', hls', rs', hrs', hk'⟩ := hsrc cr hcr'
     have hk'' := hk'
     rw [← hcell cr, Prod.mk.injEq] at hk''
-    rw [C05.rowSpec_eq_pairSpec aM _ sim C l r hlk hrk cr ls' rs' hls' hrs' hk''.1.symm hk''.2.symm] at hspec
+    rw [C05.rowSpec_eq_pairSpec aM _ sim C l r hV.lKeyValid.1 hV.rKeyValid.1 cr ls' rs' hls' hrs' hk''.1.symm hk''.2.symm] at hspec
     have hkr := pairSpec_keys aM _ sim l r _ ls' rs' row hspec
     rw [hk, Prod.mk.injEq] at hkr
     have e1 : ls' = ls := hkeyL ls' hls' ls hls hkr.1.symm
@@ -311,7 +312,7 @@ theorem matcher_iff (aM : MatcherArgs) (t : Option TokObj) (toks : TokFn) (sim :
     have hspec : C05.rowSpec aM (C05.tokOf t toks) sim C l r cr =
         some (C05.outRow aM l r (cr.cell 0) ls rs
           (scoreCell (C05.simValue (C05.tokOf t toks) sim (valOf l aM.lAttr ls) (valOf r aM.rAttr rs)))) := by
-      rw [C05.rowSpec_eq_pairSpec aM _ sim C l r hlk hrk cr ls rs hls hrs hkc'.1.symm hkc'.2.symm,
+      rw [C05.rowSpec_eq_pairSpec aM _ sim C l r hV.lKeyValid.1 hV.rKeyValid.1 cr ls rs hls hrs hkc'.1.symm hkc'.2.symm,
         C05.present_kept_iff aM _ sim l r _ ls rs hpl hpr, if_pos hcmp]
     have hmem : C05.outRow aM l r (cr.cell 0) ls rs
         (scoreCell (C05.simValue (C05.tokOf t toks) sim (valOf l aM.lAttr ls) (valOf r aM.rAttr rs))) ∈ P.rows := by
@@ -378,7 +379,8 @@ theorem stage2_total (mname : String) (a : JoinArgs) (t : TokObj) (l r : Frame)
   have hsrc := candset_rows hcall am nj cpu₁ C hC
   have hvM := stage2_valid mname a t l r C nj₂ hv hop c3 c4 t' ht
   obtain ⟨hl, hr⟩ := cand_keys_mem (stage2Args a C nj₂) C l r c1 c2 hsrc
-  obtain ⟨P, hP, -⟩ := C05.keeps_exactly (stage2Args a C nj₂) t' toks sim cpu₂ C l r hvM hl hr hClen
+  obtain ⟨P, hP, -⟩ := C05.keeps_exactly (stage2Args a C nj₂) t' toks sim cpu₂ C l r hvM
+    (fun cr hcr => PyMem.of_mem (hl cr hcr)) (fun cr hcr => PyMem.of_mem (hr cr hcr)) hClen
     (fun _ => ⟨(hcall.bodyOK hC).lstr, (hcall.bodyOK hC).rstr⟩)
   exact ⟨P, hP⟩
 
